@@ -6,6 +6,7 @@ from jugverif import core, graphcheck as G, genprog
 
 LEVEL = 'proof'
 THEOREMS = ['Jug.C15.classify_spec', 'Jug.C15.totals_add_up', 'Jug.C15.cached_eq_uncached', 'Jug.C15.check_iff', 'Jug.C15.classifier_table_matches', 'Jug.C15.graph_classifier_eq',
+            'Jug.C15.short_all_complete_iff', 'Jug.C15.short_all_complete_count',
             'Jug.MemoProps.memo_truthful', 'Jug.MemoProps.locked_answers_constant', 'Jug.MemoProps.failed_sticky', 'Jug.MemoProps.canLoad_truthful']
 
 
@@ -72,8 +73,11 @@ def check(run):
                 if rows2 != exp_rows or total2 != exp_total:
                     run.fail('status-cached-wrong', '`jug status --cache` (new cache) prints %s / Total %s, uncached semantics give %s / Total %s' % (rows2, total2, exp_rows, exp_total), rp)
                 # the one-line summary (`--short`), uncached and cached: the same five numbers, folded
+                sh_unc = None
                 for cached_short in (False, True):
                     _, _, sh, sh_out = G.real_status(P, be, cached=cached_short, cache_file=os.path.join(d, 'cache-short-%d.sqlite' % si), short=True)
+                    if not cached_short:
+                        sh_unc = (sh, ' '.join(sh_out))
                     exp_sh = (exp_total[0], exp_total[1] + exp_total[2], exp_total[3], exp_total[4])
                     if sh is None:
                         run.count('short_lines_not_understood')
@@ -103,9 +107,15 @@ def check(run):
                     pass
                 # model
                 if drv is not None:
-                    ans = drv.ask({'op': 'graph', 'n': n, 'deps': [inf['reported'] for inf in P['info']], 'hit': [False] * n, 'res': res, 'locks': lk, 'prev': ['unknown'] * n})
+                    ans = drv.ask({'op': 'graph', 'n': n, 'deps': [inf['reported'] for inf in P['info']], 'hit': [False] * n, 'res': res, 'locks': lk, 'prev': ['unknown'] * n, 'counted': list(P['alltasks_idx'])})
                     run.corr_programs += 1
                     m_rows, m_total = G.expected_counts(P, ans['status'])
+                    if sh_unc is not None and sh_unc[0] is not None and 'short' in ans:
+                        import re as _re
+                        real_kind = 'all' if _re.search(r'all tasks complete', sh_unc[1], _re.I) else 'pending'
+                        if [real_kind] + list(sh_unc[0]) != ans['short']:
+                            run.corr_disagreements += 1
+                            run.obligation('correspondence --short summary model=code', False, 'model %s; code prints %r; case %s' % (ans['short'], sh_unc[1][:120], json.dumps(rp)[:300]))
                     if m_rows != rows or m_total != total or ans['check'] != (rc == 0):
                         run.corr_disagreements += 1
                         run.obligation('correspondence status/check model=code', False, 'model rows %s check %s; code rows %s rc %s; case %s' % (m_rows, ans['check'], rows, rc, json.dumps(rp)[:300]))
